@@ -17,7 +17,7 @@ import z3
 
 from vf.pyvc.contracts import Contract, ClassContract
 from vf.pyvc.interp import exc
-from vf.pyvc.values import SStrL1, SUnionIB, StateGlobal, ANY, is_intlike, mk_int, zint, Ref
+from vf.pyvc.values import SStrL1, SUnionIB, StateGlobal, ANY, HObj, Unsupported, is_intlike, mk_int, zint, Ref
 from . import key_common      # noqa  (spec forms)
 from . import rawapi
 
@@ -45,7 +45,37 @@ def _maybe(E, st, pycls, label):
     return E.split(st, b)
 
 
-def install_der_weak(reg):
+def install_container_models(reg):
+    """call-site models of the container decoders for the import cascades: an arbitrary well-typed result or ValueError.  The OID is an
+    arbitrary latin-1 string (so every comparison with an OID constant can go either way).  Proved for the real functions in the
+    units pkcs8.total.unwrap / spki.total."""
+    def triple(E, st, args, kw):
+        E.registry.used.add('modelled callee PKCS8.unwrap / _expand_subject_public_key_info (proved: pkcs8.total.unwrap, spki.total)')
+        outs = []
+        bad, ok = _maybe(E, st, ValueError, 'container')
+        if bad is not None:
+            outs += rz(bad, ValueError, 'container')
+        if ok is not None:
+            o2 = ok.fork()
+            outs += val(ok, (SStrL1(E.fresh_bytes('oid').t), E.fresh_bytes('key'), None))
+            outs += val(o2, (SStrL1(E.fresh_bytes('oid').t), E.fresh_bytes('key'), E.fresh_bytes('params')))
+        return outs
+    reg.models[P8 + 'unwrap'] = triple
+    reg.models['Crypto.PublicKey._expand_subject_public_key_info'] = triple
+
+    def extract(E, st, args, kw):
+        E.registry.used.add('modelled callee _extract_subject_public_key_info (proved: spki.total)')
+        outs = []
+        bad, ok = _maybe(E, st, ValueError, 'x509')
+        if bad is not None:
+            outs += rz(bad, ValueError, 'x509')
+        if ok is not None:
+            outs += val(ok, SUnionIB(E.fresh(ANY, 'spki'), E.fresh(z3.BoolSort(), 'spki_is_int'), E.fresh_int('spki').t, E.fresh_bytes('spki').t))
+        return outs
+    reg.models['Crypto.PublicKey._extract_subject_public_key_info'] = extract
+
+
+def install_der_weak(reg, fork_counts=False):
     for gid, fields in ((ASEQ, {'g_n': 'nat', 'g_ints': 'bool'}), (AOID, {'value': 'any'}), (AOCT, {'payload': 'bytes'}), (ABIT, {'value': 'bytes'}),
                         (ANULL, {}), (AINT, {'value': 'int'})):
         reg.add(ClassContract(gid, fields=fields, abstract=True))
@@ -74,11 +104,28 @@ def install_der_weak(reg):
                     n = E.fresh_int('g_n')
                     ok.assume(n.t >= 0)
                     if isinstance(nr, int):
-                        ok.assume(n.t == nr)
+                        n = nr                                   # a fixed member count is a concrete value (slices, iteration)
                     elif isinstance(nr, (tuple, range)):
                         ok.assume(z3.Or([n.t == k for k in nr]))
                     elif nr is not None:
                         raise Exception('nr_elements %r' % (nr,))
+                    elif fork_counts:
+                        # no restriction on the member count and the caller iterates / unpacks the sequence: case split 0, 1, 2, 3 and
+                        # 'four or more' (represented by FOUR members -- exact for consumers that unpack into at most three names, which
+                        # is the only use in DSA.py / ECC.py: every count other than the expected one is the same ValueError)
+                        for k in (0, 1, 2, 3):
+                            s2 = ok.fork()
+                            s2.assume(n.t == k)
+                            if E.feasible(s2):
+                                h2 = s2.heap[self.oid]
+                                for k_ in [k_ for k_ in h2.fields if k_.startswith('g_elem_')]:
+                                    del h2.fields[k_]
+                                h2.fields['g_n'] = k
+                                h2.fields['g_ints'] = False
+                                outs += val(s2, self)
+                        n = 4
+                    for k_ in [k_ for k_ in h.fields if k_.startswith('g_elem_')]:
+                        del h.fields[k_]
                     h.fields['g_n'] = n
                     h.fields['g_ints'] = bool(kw.get('only_ints_expected', args[4] if len(args) > 4 else False))
                 elif gid == AOID:
@@ -95,10 +142,33 @@ def install_der_weak(reg):
     for gid in (ASEQ, AOID, AOCT, ABIT, ANULL, AINT):
         reg.models[gid + '.decode'] = decode(gid)
 
+    def elem(E, st, self, i):
+        """the i-th member (i >= 0 concrete, in range): the same value on every read"""
+        hh = st.heap[self.oid]
+        key = 'g_elem_%d' % i
+        if key not in hh.fields:
+            if hh.fields['g_ints']:
+                hh.fields[key] = E.fresh_int('elem')
+            else:
+                # an INTEGER member is handed out as a Python int, any other member as its encoding: an int|bytes union
+                hh.fields[key] = SUnionIB(E.fresh(ANY, 'elem'), E.fresh(z3.BoolSort(), 'elem_is_int'), E.fresh_int('elem').t, E.fresh_bytes('elem').t)
+        return hh.fields[key]
+
+    def seq_iter(E, st, args, kw):
+        """iteration (list(seq), unpacking): needs a concrete member count"""
+        n = st.heap[args[0].oid].fields['g_n']
+        if not isinstance(n, int):
+            raise Unsupported('iteration over a DER sequence with a symbolic member count')
+        return val(st, tuple(elem(E, st, args[0], i) for i in range(n)))
+    reg.models[ASEQ + '.__iter__'] = seq_iter
+
     def seq_getitem(E, st, args, kw):
         self, i = args
         if isinstance(i, slice):
-            raise Exception('slice of an abstract DER sequence')
+            n = st.heap[self.oid].fields['g_n']
+            if not isinstance(n, int) or not all(x is None or isinstance(x, int) for x in (i.start, i.stop, i.step)):
+                raise Unsupported('slice of a DER sequence with symbolic bounds / member count')
+            return val(st, st.alloc(HObj('list', items=[elem(E, st, self, k) for k in range(n)[i]])))
         if not is_intlike(i):
             return rz(st, TypeError, 'list indices must be integers')
         h = st.heap[self.oid]
@@ -109,16 +179,12 @@ def install_der_weak(reg):
             outs += rz(bad, IndexError, 'list index out of range')
         if ok is not None:
             hh = ok.heap[self.oid]
-            key = 'g_elem_%d' % i if isinstance(i, int) and i >= 0 else None
-            if key is not None and key in hh.fields:
-                return outs + val(ok, hh.fields[key])            # the same element on every read
+            if isinstance(i, int) and i >= 0:
+                return outs + val(ok, elem(E, ok, self, i))
             if hh.fields['g_ints']:
                 v = E.fresh_int('elem')
             else:
-                # an INTEGER member is handed out as a Python int, any other member as its encoding: an int|bytes union
                 v = SUnionIB(E.fresh(ANY, 'elem'), E.fresh(z3.BoolSort(), 'elem_is_int'), E.fresh_int('elem').t, E.fresh_bytes('elem').t)
-            if key is not None:
-                hh.fields[key] = v
             outs += val(ok, v)
         return outs
     reg.models[ASEQ + '.__getitem__'] = seq_getitem
